@@ -99,6 +99,14 @@ claim("C13", "other",
       "The JSON text layer (simplejson C codec), key order / whitespace invariance, SHA-256 and make_collection_id's repr concatenation are outside (not executable symbolically); the text codec is used in the concrete replay only.",
       "SMT-backed symbolic execution (CrossHair/z3) of the object layer with the text codec modelled as identity on JSON values", "§4 C13")
 
+claim("C14", "other",
+      "Bounded symbolic execution of the archive writer (FsOutput.write_pages / write_expanded_page) against the reader (NuWiki._read_revisions / _get_page / normalize_and_get_page) over an in-memory "
+      "revisions file: page texts built from every fragment of the record separator (how a text may start after the header's newline, how it may end in front of the next record), both writers, both "
+      "revision-id orders; three pages with two revisions of one title in every write order and id order, optional redirect; fs_escape shown decodable (hence injective) on titles <= 3 / 5 chars over "
+      "the property's alphabet; image-name spellings (namespace alias, case, separators) map to one file name.",
+      "zip / sqlite / symlink I/O is not executed (in-memory file through nuwiki.open / os.path.exists stubs); texts and titles are pinned (enumerated by the solver) because simplejson's C encoder and the C regex/strip code cannot take symbolic values; the boundary collision of the record format is a recorded known finding.",
+      "SMT-driven exhaustive symbolic execution (CrossHair/z3) of writer against reader on separator-fragment texts; real-directory replay", "§4 C14")
+
 NA["C02"] = "structure law over the C++ scanner + 20 regex-driven passes: symbolic document shapes degenerate to enumerating concrete documents, no solver-decided bound of interest (DESIGN §5)"
 NA["C07"] = "losslessness is a law about document shapes x pass interactions: word identity, not word content, matters, so nothing in it is solver-relevant; making the shape symbolic degenerates into enumerating concrete documents (measured: the full 58-pass sequence under the tracer costs 0.7-4 s per path and no symbolic value reaches a branch), which is not this technique (DESIGN §4 C07)"
 NA["C08"] = "reportlab / odfpy / pdftk do the essential work (C code, floats, external processes); every input realizes immediately, nothing for a solver to decide (DESIGN §5)"
